@@ -1947,7 +1947,7 @@ def run(ctx) -> Result:
         done += len(batch)
     # size-agnostic stream: the same process object linearized at input points made of vectors of different
     # lengths (the sizes are data: zero blocks must be formed from the sizes of the CURRENT point)
-    n_flex = 1200 if ctx.thorough else 100
+    n_flex = 800 if ctx.thorough else 100
     done = 0
     while done < n_flex and time.time() < ctx.deadline:
         batch = [gen_flex_case(rng) for _ in range(min(50, n_flex - done))]
